@@ -5,7 +5,7 @@ replies, so that control characters never meet the line protocol).
 
 Scalars:  (none) | (bool true) | (int -3) | (float fin <neg> (d1 d2 …) <decpt>) | (float inf <neg>)
           | (float nan) | (str <string>) | (raw <string>)
-Points:   (points <f32:bool> ((num k) (num k) …) …rows…)  |  (repr <string>)   -- opaque repr text
+Points:   (pts <dtype.str> (<dim>…) <hex sha1 of tobytes()>)   -- the digest is supplied: `digest` is a parameter
 
 Commands (replies):
   (ping)                                             pong
@@ -13,10 +13,11 @@ Commands (replies):
   (tuple <string>…) / (list <string>…)               string
   (optsig (<key> <scalar>)…)                         string      _compute_option_signature
   (compsig (<arg>…) <debug> <cflags> <soabi>)        string      _compilation_signature
-  (nprepr <points>)                                  string | (unsupported)
+  (pointskey <points>)                               string
   (encode (env <version> <hash>) (forms <sig>…)|(exprs (<sig> <points>)…) <tag>)   string | (unbound)
   (request (env …) (forms|exprs …) (opts (<key> <scalar>)…) (comp (<arg>…) <debug> <cflags> <soabi>))
-  (formtag <prefix> <id>)  (integraltag <prefix> <type> <id> (<scalar>…))  (alias <kind> <prefix> <name>)
+  (formtag <prefix> <id>)  (integraltag <prefix> <type> <id> (<scalar>…))  (exprtag <prefix> <id>|none)
+  (alias <kind> <prefix> <name>)
   (factory <name> <cell>)                            string      integral factory name
   (validident <string>)                              true|false
   (merge (<k> <scalar>)… four lists: defaults user pwd, then (some (…)) | (none))   ((k reprstring)…)
@@ -69,28 +70,17 @@ def asSItems (xs : List Sexp) : Except String (Dict String Scalar) :=
     | .list [k, v] => do pure (String.ofList (← asStr k), ← asScalar v)
     | _ => .error "bad item"
 
-/-- Points are either modelled arrays or an opaque repr text. -/
-inductive Pts where
-  | arr (p : Points)
-  | raw (r : Str)
+/-- Points with the digest of their bytes supplied by the harness (`digest := id`). -/
+abbrev DPts := Pts Str
 
-def asDy : Sexp → Except String Dy
-  | .list [n, k] => do pure ⟨← n.asInt, ← k.asNat⟩
-  | _ => .error "bad dyadic"
-
-def asPts : Sexp → Except String Pts
-  | .list (.atom "points" :: f32 :: rows) => do
-      let rs ← rows.mapM fun r => do (← r.asList).mapM asDy
-      pure (.arr ⟨rs, ← f32.asBool⟩)
-  | .list [.atom "repr", s] => do pure (.raw (← asStr s))
+def asPts : Sexp → Except String DPts
+  | .list [.atom "pts", dt, sh, dg] => do
+      pure ⟨← asStr dt, ← asNatList sh, ← asStr dg⟩
   | _ => .error "bad points"
 
-/-- `repr(points)`; unsupported arrays print as a marker that can never match. -/
-def reprPts : Pts → Str
-  | .arr p => (npRepr p).getD (cs! "<unsupported>")
-  | .raw r => r
+def reprPts : DPts → Str := pointsKey id
 
-def asObjs : Sexp → Except String (Objs Pts)
+def asObjs : Sexp → Except String (Objs DPts)
   | .list (.atom "forms" :: sigs) => do pure (.forms (← sigs.mapM asStr))
   | .list (.atom "exprs" :: es) => do
       let l ← es.mapM fun e => match e with
@@ -125,24 +115,24 @@ def dispatch (req : Sexp) : Except String Sexp :=
     | "list", parts => do pure (ofStr (listOf (← parts.mapM asStr)))
     | "optsig", items => do pure (ofStr (optionSignature (← asItems items)))
     | "compsig", c => do pure (ofStr (compilationSignature (← asComp c)))
-    | "nprepr", [p] => do
-        match ← asPts p with
-        | .arr a => match npRepr a with
-          | some s => pure (ofStr s)
-          | none => pure (.list [.atom "unsupported"])
-        | .raw r => pure (ofStr r)
+    | "pointskey", [p] => do pure (ofStr (reprPts (← asPts p)))
     | "encode", [env, objs, tag] => do
         match encode reprPts (← asEnv env) (← asObjs objs) (← asStr tag) with
         | some s => pure (ofStr s)
         | none => pure (.list [.atom "unbound"])
     | "request", [env, objs, .list (.atom "opts" :: items), .list (.atom "comp" :: c)] => do
-        let r : Request Pts := ⟨← asObjs objs, ← asItems items, ← asComp c⟩
+        let r : Request DPts := ⟨← asObjs objs, ← asItems items, ← asComp c⟩
         match encodeRequest reprPts (← asEnv env) r with
         | some s => pure (ofStr s)
         | none => pure (.list [.atom "unbound"])
     | "formtag", [p, i] => do pure (ofStr (formTag (← asStr p) (← i.asInt)))
     | "integraltag", [p, t, i, sub] => do
         pure (ofStr (integralTag (← asStr p) (← asStr t) (← i.asInt) (← (← sub.asList).mapM asScalar)))
+    | "exprtag", [p, i] => do
+        let id ← match i with
+          | .atom "none" => pure none
+          | x => do pure (some (← x.asInt))
+        pure (ofStr (expressionTag (← asStr p) id))
     | "alias", [k, p, n] => do pure (ofStr (aliasName (← asStr k) (← asStr p) (← asStr n)))
     | "factory", [n, c] => do pure (ofStr ((← asStr n) ++ '_' :: (← asStr c)))
     | "validident", [s] => do pure (Sexp.ofBool (validIdent (← asStr s)))
